@@ -428,4 +428,39 @@ func init() {
 		File: "variables.go", Old: "		ref := newReference(parsePath(path, e.pathSep, opts.maxIdx, opts.enableNumKeys, opts.escapePath))\n		str, err := ref.eval(cfg, opts)", New: "		ref := newReference(parsePathWithOpts(path, opts))\n		str, err := ref.eval(cfg, opts)", Expect: "R02f/(*ucfg.expansionErr).eval"})
 	addControl(control{Prop: "C02", Name: "separator-in-local", Rule: "R02f", Kind: "refactor",
 		File: "variables.go", Old: "	ref := newReference(parsePath(path, e.pathSep, opts.maxIdx, opts.enableNumKeys, opts.escapePath))\n	return ref.eval(cfg, opts)", New: "	sep := e.pathSep\n	p := parsePath(path, sep, opts.maxIdx, opts.enableNumKeys, opts.escapePath)\n	ref := newReference(p)\n	return ref.eval(cfg, opts)"})
+	// ---------------- rules added after the first round of seeded changes ----------------
+	addControl(control{Prop: "C08", Name: "reference-eval-restores-only-on-success", Rule: "R08d", Kind: "mutant", Quick: true,
+		File: "variables.go", Old: "	defer func() { opts.activeFields = parentFields }()\n\n	v, err := r.resolve(cfg, opts)\n	if err != nil {\n		return \"\", err\n	}\n	if v == nil {\n		return \"\", fmt.Errorf(\"can not resolve reference: %v\", r.Path)\n	}\n	return v.toString(opts)",
+		New: "\n	v, err := r.resolve(cfg, opts)\n	if err != nil {\n		return \"\", err\n	}\n	if v == nil {\n		return \"\", fmt.Errorf(\"can not resolve reference: %v\", r.Path)\n	}\n	s, err := v.toString(opts)\n	opts.activeFields = parentFields\n	return s, err", Expect: "R08d/(*ucfg.reference).eval/open restored"})
+	addControl(control{Prop: "C08", Name: "reference-eval-explicit-restores", Rule: "R08d", Kind: "refactor",
+		File: "variables.go", Old: "	defer func() { opts.activeFields = parentFields }()\n\n	v, err := r.resolve(cfg, opts)\n	if err != nil {\n		return \"\", err\n	}\n	if v == nil {\n		return \"\", fmt.Errorf(\"can not resolve reference: %v\", r.Path)\n	}\n	return v.toString(opts)",
+		New: "\n	v, err := r.resolve(cfg, opts)\n	if err != nil {\n		opts.activeFields = parentFields\n		return \"\", err\n	}\n	if v == nil {\n		opts.activeFields = parentFields\n		return \"\", fmt.Errorf(\"can not resolve reference: %v\", r.Path)\n	}\n	s, err := v.toString(opts)\n	opts.activeFields = parentFields\n	return s, err"})
+	addControl(control{Prop: "C09", Name: "sort-key-by-value-string", Rule: "R09c", Kind: "mutant", Quick: true,
+		File: "merge.go", Old: "	k = chaseValueInterfaces(k)\n	if k.Kind() == reflect.String {\n		return k.String()\n	}\n	return fmt.Sprint(k.Interface())", New: "	_ = fmt.Sprint\n	return k.String()", Expect: "R09c/ucfg.mapKeyString"})
+	addControl(control{Prop: "C09", Name: "comparator-compares-key-with-itself", Rule: "R09d", Kind: "mutant",
+		File: "validator.go", Old: "		return mapKeyString(keys[i]) < mapKeyString(keys[j])", New: "		return mapKeyString(keys[i]) < mapKeyString(keys[i])", Expect: "R09d/ucfg.validateMap"})
+	addControl(control{Prop: "C09", Name: "comparator-with-locals", Rule: "R09d", Kind: "refactor",
+		File: "validator.go", Old: "		return mapKeyString(keys[i]) < mapKeyString(keys[j])", New: "		a, b := mapKeyString(keys[i]), mapKeyString(keys[j])\n		return a < b"})
+	addControl(control{Prop: "C11", Name: "captured-config-merged-without-identity-test", Rule: "R11d", Kind: "mutant", Quick: true,
+		File: "reify.go", Old: "		if sub == subOld {\n			return oldValue, nil\n		}\n", New: "", Expect: "R11d/ucfg.reifyMergeValue"})
+	addControl(control{Prop: "C11", Name: "identity-test-inverted-form", Rule: "R11d", Kind: "refactor",
+		File: "reify.go", Old: "		if sub == subOld {\n			return oldValue, nil\n		}\n\n		// old != value -> merge value into old\n		return oldValue, mergeFieldConfig(opts, subOld, sub)", New: "		if sub != subOld {\n			return oldValue, mergeFieldConfig(opts, subOld, sub)\n		}\n		return oldValue, nil"})
+	addControl(control{Prop: "C01", Name: "source-dictionary-read-after-clear", Rule: "R01d", Kind: "mutant", Quick: true,
+		File: "merge.go", Old: "	for _, k := range sortedKeys(dict) {\n		v := dict[k]\n", New: "	dict = from.fields.dict()\n	for _, k := range sortedKeys(dict) {\n		v := dict[k]\n", Expect: "R01d/ucfg.mergeConfigDict/source read before clear"})
+	addControl(control{Prop: "C06", Name: "float32-stored-through-text", Rule: "R06f", Kind: "mutant", Quick: true,
+		File: "merge.go", Old: "		f := v.Float()\n		return newFloat(ctx, opts.meta, f), nil", New: "		f := v.Float()\n		if v.Kind() == reflect.Float32 {\n			f = float64(float32(f) * 1)\n			fmt.Sscan(fmt.Sprint(float32(f)), &f)\n		}\n		return newFloat(ctx, opts.meta, f), nil", Expect: "R06f/ucfg.normalizeValue/exact newFloat"})
+	addControl(control{Prop: "C16", Name: "parent-tree-handed-down-whenever-no-child", Rule: "R16d", Kind: "mutant", Quick: true,
+		File: "merge.go", Old: "	if child == nil && len(parent.fields.dict()) == 1 {", New: "	if child == nil {", Expect: "R16d/ucfg.includeWildcard"})
+	addControl(control{Prop: "C17", Name: "no-unsigned-parse", Rule: "R17d", Kind: "mutant", Quick: true,
+		File: "parse/parse.go", Old: "	if n, err := strconv.ParseUint(content, 0, 64); err == nil {\n		return n, nil\n	}\n", New: "", Expect: "R17d/(*parse.flagParser).parsePrimitive/strconv.ParseUint"})
+	addControl(control{Prop: "C17", Name: "float-before-signed-integer", Rule: "R17d", Kind: "mutant",
+		File: "parse/parse.go", Old: "	if n, err := strconv.ParseInt(content, 0, 64); err == nil {\n		return n, nil\n	}\n	if n, err := strconv.ParseFloat(content, 64); err == nil {\n		return n, nil\n	}\n", New: "	if n, err := strconv.ParseFloat(content, 64); err == nil {\n		return n, nil\n	}\n	if n, err := strconv.ParseInt(content, 0, 64); err == nil {\n		return n, nil\n	}\n", Expect: "R17d/(*parse.flagParser).parsePrimitive/strconv.ParseInt"})
+	addControl(control{Prop: "C17", Name: "number-parses-with-named-errors", Rule: "R17d", Kind: "refactor",
+		File: "parse/parse.go", Old: "	if n, err := strconv.ParseUint(content, 0, 64); err == nil {\n		return n, nil\n	}\n	if n, err := strconv.ParseInt(content, 0, 64); err == nil {\n		return n, nil\n	}\n", New: "	u, uerr := strconv.ParseUint(content, 0, 64)\n	if uerr == nil {\n		return u, nil\n	}\n	i, ierr := strconv.ParseInt(content, 0, 64)\n	if ierr == nil {\n		return i, nil\n	}\n"})
+	addControl(control{Prop: "C04", Name: "duration-bound-truncated-before-scaling", Rule: "R04e", Kind: "mutant", Quick: true,
+		File: "validator.go", Old: "	return time.Duration(tmp * float64(time.Second)), nil", New: "	return time.Duration(tmp) * time.Second, nil", Expect: "R04e/ucfg.param2Duration"})
+	addControl(control{Prop: "C04", Name: "duration-bound-scaled-in-local", Rule: "R04e", Kind: "refactor",
+		File: "validator.go", Old: "	return time.Duration(tmp * float64(time.Second)), nil", New: "	secs := float64(time.Second) * tmp\n	return time.Duration(secs), nil"})
+	addControl(control{Prop: "C12", Name: "removal-copies-shifted-elements", Rule: "R12e", Kind: "mutant", Quick: true,
+		File: "ucfg.go", Old: "			v.SetContext(ctx)\n		}\n	}\n	return true", New: "			f.a[j] = v.cpy(ctx)\n		}\n	}\n	return true", Expect: "R12e/(*ucfg.fields).delAt"})
 }
